@@ -18,16 +18,23 @@ class DigestMD5(object):
 
         self.__params = {}
         pexpr = re.compile(r'(\w+)="(.+)"')
-        for elt in base64.b64decode(challenge).split(","):
+        decoded = base64.b64decode(challenge).decode("utf-8")
+        for elt in decoded.split(","):
             m = pexpr.match(elt)
             if m is None:
                 continue
             self.__params[m.group(1)] = m.group(2)
 
+    def __to_bytes(self, value):
+        if isinstance(value, bytes):
+            return value
+        return value.encode("utf-8")
+
+    def __quote(self, value):
+        return value.replace(b"\\", b"\\\\").replace(b'"', b'\\"')
+
     def __make_cnonce(self):
-        ret = ""
-        for i in xrange(12):
-            ret += chr(random.randint(0, 0xFF))
+        ret = bytes(random.randint(0, 0xFF) for i in range(12))
         return base64.b64encode(ret)
 
     def __digest(self, value):
@@ -37,50 +44,57 @@ class DigestMD5(object):
         return binascii.hexlify(hashlib.md5(value).digest())
 
     def __make_response(self, username, password, check=False):
-        a1 = "%s:%s:%s" % (
-            self.__digest("%s:%s:%s" % (username, self.realm, password)),
-            self.__params["nonce"],
+        nonce = self.__to_bytes(self.__params["nonce"])
+        digesturi = self.__to_bytes(self.__digesturi)
+        a1 = b"%s:%s:%s" % (
+            self.__digest(b"%s:%s:%s" % (username, self.realm, password)),
+            nonce,
             self.cnonce,
         )
+        if self.authz_id:
+            a1 += b":" + self.authz_id
         if check:
-            a2 = ":%s" % self.__digesturi
+            a2 = b":%s" % digesturi
         else:
-            a2 = "AUTHENTICATE:%s" % self.__digesturi
-        resp = "%s:%s:00000001:%s:auth:%s" % (
+            a2 = b"AUTHENTICATE:%s" % digesturi
+        resp = b"%s:%s:00000001:%s:auth:%s" % (
             self.__hexdigest(a1),
-            self.__params["nonce"],
+            nonce,
             self.cnonce,
             self.__hexdigest(a2),
         )
 
         return self.__hexdigest(resp)
 
-    def response(self, username, password, authz_id=""):
-        self.realm = self.__params["realm"] if self.__params.has_key("realm") else ""
+    def response(self, username, password, authz_id=b""):
+        username = self.__to_bytes(username)
+        password = self.__to_bytes(password)
+        self.authz_id = self.__to_bytes(authz_id)
+        self.realm = self.__to_bytes(self.__params.get("realm", ""))
         self.cnonce = self.__make_cnonce()
         respvalue = self.__make_response(username, password)
 
         dgres = (
-            'username="%s",%snonce="%s",cnonce="%s",nc=00000001,qop=auth,'
-            'digest-uri="%s",response=%s'
+            b'username="%s",%snonce="%s",cnonce="%s",nc=00000001,qop=auth,'
+            b'digest-uri="%s",response=%s,charset=utf-8'
             % (
-                username,
-                ('realm="%s",' % self.realm) if len(self.realm) else "",
-                self.__params["nonce"],
+                self.__quote(username),
+                (b'realm="%s",' % self.realm) if len(self.realm) else b"",
+                self.__to_bytes(self.__params["nonce"]),
                 self.cnonce,
-                self.__digesturi,
+                self.__to_bytes(self.__digesturi),
                 respvalue,
             )
         )
-        if authz_id:
-            if type(authz_id) is unicode:
-                authz_id = authz_id.encode("utf-8")
-            dgres += ',authzid="%s"' % authz_id
+        if self.authz_id:
+            dgres += b',authzid="%s"' % self.__quote(self.authz_id)
 
         return base64.b64encode(dgres)
 
     def check_last_challenge(self, username, password, value):
-        challenge = base64.b64decode(value.strip('"'))
+        username = self.__to_bytes(username)
+        password = self.__to_bytes(password)
+        challenge = base64.b64decode(value)
         return challenge == (
-            "rspauth=%s" % self.__make_response(username, password, True)
+            b"rspauth=%s" % self.__make_response(username, password, True)
         )
